@@ -359,6 +359,7 @@ pub fn c16(ctx: &Ctx) {
 // ------------------------------------------------------------------------------------------ C02
 fn c02_nontrivial(f: &BTreeSet<String>) -> bool {
     has(f, "peek_at_block_end") || has(f, "stateless_ck_true_alo") || (has(f, "peek_pair_checked") && has(f, "rotation")) || (has(f, "stateless_read") && has(f, "rotation"))
+        || (has(f, "data_after_reopen") && (has(f, "peek_pair_checked") || has(f, "stateless_read")))
 }
 
 fn c02_mix() -> Mix {
@@ -487,14 +488,21 @@ pub fn c02(ctx: &Ctx) {
     let plans: Vec<(&str, SizeProfile, std::ops::Range<usize>, usize)> = vec![
         ("tiny", SizeProfile::Tiny, 10..80, if q { 420 } else { 10_000 }),
         ("block", SizeProfile::Block, 6..22, if q { 110 } else { 4_000 }),
+        ("restart-tiny", SizeProfile::Tiny, 10..60, if q { 200 } else { 6_000 }),
+        ("restart-block", SizeProfile::Block, 6..22, if q { 40 } else { 3_000 }),
     ];
     for (name, prof, nops, cases) in plans {
         let prop = ctx.prop.clone();
         let excl2 = excl.clone();
         let nops2 = nops.clone();
+        // "restart-*": the same three runs with clean restarts in the history, so that "later reads"
+        // includes the reads of the next lifetime: a peek must not change the durable cursor or the
+        // counts rebuilt from it either (AtLeastOnce keeps the in-memory cursor ahead of the durable
+        // one, so a peek that persists anything shows only after a restart)
+        let mix = if name.starts_with("restart") { Mix { reopen: 9, ..c02_mix() } } else { c02_mix() };
         let s = Search {
             name: name.to_string(),
-            strategy: Box::new(move || case_strategy(c02_mix(), prof, nops2.clone(), 3, mode_strategy())),
+            strategy: Box::new(move || case_strategy(mix.clone(), prof, nops2.clone(), 3, mode_strategy())),
             run: Box::new(move |case: &Case| c02_erasure_run(&prop, case, &excl2)),
             cases,
             workers: w,
